@@ -2,6 +2,7 @@ package rules
 
 import (
 	"fmt"
+	"go/token"
 	"go/types"
 	"os"
 	"sort"
@@ -208,6 +209,12 @@ func checkListingWriter(ctx *Ctx, roles *EmitterRoles, fn *ssa.Function, byType 
 		R.Fail("record", name+":analysable", pos, fmt.Sprintf("not interpretable: %v", imp))
 		return
 	}
+	for _, ev := range ip.Events {
+		if ev.Kind == "index-range" {
+			R.Fail("record", name+":index", ctx.Prog.Pos(ev.Pos), "an index is certainly outside its "+ev.Callee+": rendering such a line panics")
+		}
+	}
+	checkListingLoop(ctx, fn)
 	// arm of an event: the line-type comparison that is true among its guards
 	armOf := func(g map[string]bool) (uint64, bool) {
 		for k, v := range g {
@@ -236,6 +243,7 @@ func checkListingWriter(ctx *Ctx, roles *EmitterRoles, fn *ssa.Function, byType 
 	type armData struct {
 		bytes []renderedByte
 		addrs []string
+		paths []map[string]bool // guards of every render event of the arm: the paths through it
 	}
 	// byteOf recognises a rendered byte of the target buffer and recovers its index term
 	collectInto := func(xip *absint.Interp, ad *armData, e RenderEvent) {
@@ -273,6 +281,7 @@ func checkListingWriter(ctx *Ctx, roles *EmitterRoles, fn *ssa.Function, byType 
 			arms[t] = ad
 		}
 		collectInto(ip, ad, e)
+		ad.paths = append(ad.paths, e.Guards)
 	}
 	var judgeFn func(xip *absint.Interp, ad *armData, rec lineRec) string
 	nExtent := 0
@@ -362,6 +371,7 @@ func checkListingWriter(ctx *Ctx, roles *EmitterRoles, fn *ssa.Function, byType 
 		ad := &armData{}
 		for _, e := range xr {
 			collectInto(xip, ad, e)
+			ad.paths = append(ad.paths, e.Guards)
 		}
 		if msg := judgeFn(xip, ad, rec); msg != "" {
 			return msg
@@ -401,13 +411,39 @@ func checkListingWriter(ctx *Ctx, roles *EmitterRoles, fn *ssa.Function, byType 
 	judge := func(xip *absint.Interp, ad *armData, rec lineRec) string {
 		// one rendering per consistent path (label arms branch on undefined labels)
 		sigs := map[string]map[string]bool{}
+		// the paths through the arm are those of all its render events, not only of the bytes: a sub-arm (the
+		// warning form of a label line) that prints text but no bytes is a path, too
+		var allGuards []map[string]bool
 		for _, b := range ad.bytes {
+			allGuards = append(allGuards, b.guards)
+		}
+		// a path is a maximal guard set: keep the render events whose guards are not contained in another's
+		for _, g := range ad.paths {
+			maximal := true
+			for _, h := range ad.paths {
+				if len(h) > len(g) {
+					sub := true
+					for k, v := range g {
+						if hv, ok := h[k]; !ok || hv != v {
+							sub = false
+						}
+					}
+					if sub {
+						maximal = false
+					}
+				}
+			}
+			if maximal {
+				allGuards = append(allGuards, g)
+			}
+		}
+		for _, g := range allGuards {
 			var ks []string
-			for k, v := range b.guards {
+			for k, v := range g {
 				ks = append(ks, fmt.Sprintf("%s=%v", k, v))
 			}
 			sort.Strings(ks)
-			sigs[strings.Join(ks, "&")] = b.guards
+			sigs[strings.Join(ks, "&")] = g
 		}
 		msg := ""
 		if len(ad.bytes) == 0 && rec.K > 0 {
@@ -1057,6 +1093,7 @@ func checkBaseDirective(ctx *Ctx, roles *EmitterRoles, lineS *types.Struct, fAdd
 			continue
 		}
 		pos := ctx.Prog.Pos(fn.Pos())
+		checkListerCalled(ctx, roles, fn)
 		for _, on := range []bool{true, false} {
 			key := fmt.Sprintf("lister:%s:armed=%v", fn.Name(), on)
 			ip := absint.New()
@@ -1109,4 +1146,119 @@ func checkBaseDirective(ctx *Ctx, roles *EmitterRoles, lineS *types.Struct, fAdd
 			}
 		}
 	}
+}
+
+// checkListingLoop: every line is written. The loop over the lines is left early only when the caller's writer
+// reported an error: an edge out of the loop other than the loop test's is the non-nil edge of a nil test of an
+// error value.
+func checkListingLoop(ctx *Ctx, fn *ssa.Function) {
+	R := ctx.R
+	name := fn.Name()
+	loops := loopsOf(fn)
+	n := 0
+	for _, L := range loops {
+		outer := true
+		for _, L2 := range loops {
+			if L2 != L && L2.Body[L.Header] {
+				outer = false
+			}
+		}
+		if !outer {
+			continue
+		}
+		n++
+		msg := ""
+		for b := range L.Body {
+			for si, sc := range b.Succs {
+				if L.Body[sc] || b == L.Header {
+					continue
+				}
+				okExit := false
+				if iff, isIf := b.Instrs[len(b.Instrs)-1].(*ssa.If); isIf {
+					if cmp, isB := iff.Cond.(*ssa.BinOp); isB && (cmp.Op == token.NEQ || cmp.Op == token.EQL) {
+						if c, isC := cmp.Y.(*ssa.Const); isC && c.Value == nil && cmp.X.Type().String() == "error" {
+							nonNilEdge := 0
+							if cmp.Op == token.EQL {
+								nonNilEdge = 1
+							}
+							okExit = si == nonNilEdge
+						}
+					}
+				}
+				if !okExit {
+					msg = fmt.Sprintf("the loop over the lines can be left at %s for a reason other than a write error: the lines after it are not written", ctx.Prog.Pos(b.Instrs[len(b.Instrs)-1].Pos()))
+				}
+			}
+			if _, isRet := b.Instrs[len(b.Instrs)-1].(*ssa.Return); isRet {
+				msg = "the loop over the lines returns from inside"
+			}
+		}
+		if msg != "" {
+			R.Fail("record", name+":every-line", ctx.Prog.Pos(fn.Pos()), msg)
+		} else {
+			R.Pass("record", name+":every-line", ctx.Prog.Pos(fn.Pos()), "the loop over the lines ends early only on a write error")
+		}
+	}
+	_ = n
+}
+
+// checkListerCalled: "at the positions where they were issued" - every function that appends a record of its own to
+// the listing has called the directive helper on the same emitter before (so a pending base directive is listed
+// in front of that record, whatever kind of record it is).
+func checkListerCalled(ctx *Ctx, roles *EmitterRoles, lister *ssa.Function) {
+	R := ctx.R
+	n := 0
+	for _, fn := range ctx.Prog.AllFuncs() {
+		if fn == lister || fn.Blocks == nil || len(fn.Params) == 0 || !types.Identical(fn.Params[0].Type(), types.NewPointer(roles.Named)) {
+			continue
+		}
+		recv := fn.Params[0]
+		for _, b := range fn.Blocks {
+			for _, in := range b.Instrs {
+				c, ok := in.(*ssa.Call)
+				if !ok {
+					continue
+				}
+				bi, isB := c.Call.Value.(*ssa.Builtin)
+				if !isB || bi.Name() != "append" || len(c.Call.Args) != 2 {
+					continue
+				}
+				ld, isLd := c.Call.Args[0].(*ssa.UnOp)
+				if !isLd {
+					continue
+				}
+				fa, isFA := ld.X.(*ssa.FieldAddr)
+				if !isFA || fa.Field != roles.Lines || fa.X != ssa.Value(recv) {
+					continue
+				}
+				sl, isSl := c.Call.Args[1].(*ssa.Slice)
+				if !isSl {
+					continue // another list spread into this one (Append)
+				}
+				if al, isAl := sl.X.(*ssa.Alloc); !isAl || al.Comment != "varargs" {
+					continue
+				}
+				n++
+				called := false
+				for _, b2 := range fn.Blocks {
+					for _, in2 := range b2.Instrs {
+						c2, ok := in2.(*ssa.Call)
+						if !ok || c2.Call.StaticCallee() != lister || len(c2.Call.Args) == 0 || c2.Call.Args[0] != ssa.Value(recv) {
+							continue
+						}
+						if b2 == b && instrIndex(c2) < instrIndex(c) || b2 != b && b2.Dominates(b) {
+							called = true
+						}
+					}
+				}
+				key := "lister-called:" + fn.Name()
+				if called {
+					R.Pass("base-directive", key, ctx.Prog.Pos(c.Pos()), "a pending base directive is listed before this record")
+				} else {
+					R.Fail("base-directive", key, ctx.Prog.Pos(c.Pos()), "a record is appended to the listing without listing a pending base directive first ("+lister.Name()+" is not called before it): the directive would appear later than where it was issued, or never")
+				}
+			}
+		}
+	}
+	R.Count("record-appending-sites", n)
 }
